@@ -96,7 +96,7 @@ pub fn check(case: &StreamCase) -> Outcome {
 }
 
 fn simple_input(len: usize, seed: u64) -> InputSpec {
-    InputSpec { channels: 1, bps: 16, rate: 44100, len, chans: vec![ChanSpec { segs: vec![Seg { class: 4, amp: 3, p: 12345 }] }], rel: 0, seed }
+    InputSpec { channels: 1, bps: 16, rate: 44100, len, chans: vec![ChanSpec { segs: vec![Seg { class: 4, amp: 3, p: 12345 }] }], rel: 0, seed, explicit: None }
 }
 
 pub fn run(ctx: &Ctx) {
